@@ -1062,6 +1062,10 @@ impl<'a> CompactionIterator<'a> {
 		// A REPLACE makes the versions OLDER than itself stale (never newer ones).
 		let mut replace_seen = false;
 
+		// A newer hard delete or REPLACE of this key was already processed (above the
+		// bottom level with versioning it is kept): an older barrier adds nothing to it.
+		let mut newer_barrier = false;
+
 		// Track the visibility of the previous (newer) version we processed.
 		// Used to detect when a newer version supersedes an older one.
 		let mut newer_version_visibility: Option<SnapshotVisibility> = None;
@@ -1092,6 +1096,14 @@ impl<'a> CompactionIterator<'a> {
 
 			let current_visibility = self.find_earliest_visible_snapshot(seq_num)?;
 
+			// A newer barrier makes this one redundant only for readers that see both:
+			// it has to be in the same visibility boundary.
+			if let Some(newer_vis) = newer_version_visibility {
+				if !self.same_visibility_boundary(newer_vis, current_visibility) {
+					newer_barrier = false;
+				}
+			}
+
 			// Check if this version is superseded by a newer version
 			let superseded = if let Some(newer_vis) = newer_version_visibility {
 				// Can we drop superseded versions in this scenario?
@@ -1102,8 +1114,18 @@ impl<'a> CompactionIterator<'a> {
 					&& self.clock.now().saturating_sub(key.timestamp) > self.retention_period_ns;
 				let snapshot_allows_drop = !self.enable_versioning || outside_retention;
 
+				// A hard delete erases older versions that may sit in deeper tables; above
+				// the bottom level it is not dropped as superseded either (not even once it
+				// is outside the retention window), unless a newer hard delete or REPLACE of
+				// this key already does that job.
+				let barrier_above_bottom = self.enable_versioning
+					&& !self.is_bottom_level
+					&& is_hard_delete
+					&& !newer_barrier;
+
 				// Superseded = not latest AND in same visibility boundary AND allowed to drop
 				snapshot_allows_drop
+					&& !barrier_above_bottom
 					&& !is_latest && self.same_visibility_boundary(newer_vis, current_visibility)
 			} else {
 				// This is the first (newest) version - can't be superseded
@@ -1147,7 +1169,7 @@ impl<'a> CompactionIterator<'a> {
 				// versioning it is also the barrier that erases the older versions from
 				// history and time-travel reads; above the bottom level those may sit in
 				// deeper tables that are not part of this compaction, so it has to stay.
-				!(self.enable_versioning && !self.is_bottom_level)
+				!(self.enable_versioning && !self.is_bottom_level && !newer_barrier)
 			} else if replace_seen {
 				// A newer REPLACE erased this version
 				true
@@ -1195,6 +1217,9 @@ impl<'a> CompactionIterator<'a> {
 			newer_version_visibility = Some(current_visibility);
 			if is_replace {
 				replace_seen = true;
+			}
+			if is_hard_delete || is_replace {
+				newer_barrier = true;
 			}
 		}
 
